@@ -50,7 +50,7 @@ func init() {
 
 		// ---- hashing ----
 		"golang.org/x/crypto/blake2b.Sum256": func(x *Exec, fv FuncV, a []Value) Value {
-			return x.hashToAgg(x.hashBytes(x.sliceBytes(a[0].(SliceV))))
+			return x.hashToAgg(x.hashBytes(x.sliceBytes(x.sl(a[0]))))
 		},
 		"golang.org/x/crypto/blake2b.New256": func(x *Exec, fv FuncV, a []Value) Value {
 			return Tuple{x.newHasher(), Iface{}}
@@ -61,7 +61,7 @@ func init() {
 		},
 		"crypto/ed25519.Verify": edVerify,
 		"crypto/sha256.Sum256": func(x *Exec, fv FuncV, a []Value) Value {
-			b := x.sliceBytes(a[0].(SliceV))
+			b := x.sliceBytes(x.sl(a[0]))
 			var arg *Term
 			if len(b) == 0 {
 				return x.hashToAgg(x.ts.UF("S256_0", 256))
@@ -100,10 +100,10 @@ func init() {
 
 		// ---- bytes / bytealg ----
 		"bytes.Equal": func(x *Exec, fv FuncV, a []Value) Value {
-			return x.bytesEq(x.sliceBytes(a[0].(SliceV)), x.sliceBytes(a[1].(SliceV)))
+			return x.bytesEq(x.sliceBytes(x.sl(a[0])), x.sliceBytes(x.sl(a[1])))
 		},
 		"internal/bytealg.Equal": func(x *Exec, fv FuncV, a []Value) Value {
-			return x.bytesEq(x.sliceBytes(a[0].(SliceV)), x.sliceBytes(a[1].(SliceV)))
+			return x.bytesEq(x.sliceBytes(x.sl(a[0])), x.sliceBytes(x.sl(a[1])))
 		},
 		"bytes.Compare":                    bytesCompare,
 		"internal/bytealg.Compare":         bytesCompare,
@@ -179,7 +179,7 @@ func init() {
 			return r
 		},
 		"lukechampine.com/frand.Read": func(x *Exec, fv FuncV, a []Value) Value {
-			s := a[0].(SliceV)
+			s := x.sl(a[0])
 			for i := 0; i < s.Len; i++ {
 				s.Obj.Cells[s.Off+i] = x.freshAuto("frand.byte", 8)
 			}
@@ -463,11 +463,11 @@ func (x *Exec) nativeInvoke(n *Native, method string, args []Value) Value {
 		h := n.Data.(*hasherState)
 		switch method {
 		case "Write":
-			b := x.sliceBytes(args[0].(SliceV))
+			b := x.sliceBytes(x.sl(args[0]))
 			h.buf = append(h.buf, b...)
 			return Tuple{ts.ConstU(64, uint64(len(b))), Iface{}}
 		case "Sum":
-			pre := args[0].(SliceV)
+			pre := x.sl(args[0])
 			sum := x.hashToAgg(x.hashBytes(h.buf))
 			var cells []*Term
 			if pre.Obj != nil {
@@ -507,9 +507,9 @@ func (x *Exec) nativeInvoke(n *Native, method string, args []Value) Value {
 
 func edVerify(x *Exec, fv FuncV, a []Value) Value {
 	ts := x.ts
-	pk := x.sliceBytes(a[0].(SliceV))
-	msg := x.sliceBytes(a[1].(SliceV))
-	sig := x.sliceBytes(a[2].(SliceV))
+	pk := x.sliceBytes(x.sl(a[0]))
+	msg := x.sliceBytes(x.sl(a[1]))
+	sig := x.sliceBytes(x.sl(a[2]))
 	if len(pk) != 32 {
 		x.goPanic("ed25519", "ed25519: bad public key length")
 	}
@@ -543,7 +543,7 @@ func fmtErrorf(x *Exec, fv FuncV, a []Value) Value {
 	}
 	if strings.Contains(format, "%w") {
 		// find the first error-typed argument
-		va := a[1].(SliceV)
+		va := x.sl(a[1])
 		for i := 0; i < va.Len; i++ {
 			if e, ok := va.Obj.Cells[va.Off+i].(Iface); ok && e.T != nil {
 				if x.isErrorValue(e) {
@@ -649,7 +649,7 @@ func poolPut(x *Exec, fv FuncV, a []Value) Value {
 
 func sortSlice(x *Exec, fv FuncV, a []Value) Value {
 	iv := a[0].(Iface)
-	s := iv.V.(SliceV)
+	s := x.sl(iv.V)
 	less := a[1].(FuncV)
 	et := iv.T.Underlying().(*types.Slice).Elem()
 	ec := x.ncells(et)
@@ -769,7 +769,7 @@ func vhParam(x *Exec, fv FuncV, a []Value) Value {
 }
 
 func vhAnd(x *Exec, fv FuncV, a []Value) Value {
-	s := a[0].(SliceV)
+	s := x.sl(a[0])
 	var ts []*Term
 	for i := 0; i < s.Len; i++ {
 		ts = append(ts, s.Obj.Cells[s.Off+i].(*Term))
@@ -778,7 +778,7 @@ func vhAnd(x *Exec, fv FuncV, a []Value) Value {
 }
 
 func vhOr(x *Exec, fv FuncV, a []Value) Value {
-	s := a[0].(SliceV)
+	s := x.sl(a[0])
 	var ts []*Term
 	for i := 0; i < s.Len; i++ {
 		ts = append(ts, s.Obj.Cells[s.Off+i].(*Term))
@@ -866,7 +866,14 @@ func isByte(t types.Type) bool {
 
 func isTimeType(t types.Type) bool {
 	n, ok := t.(*types.Named)
-	return ok && n.Obj().Pkg() != nil && n.Obj().Pkg().Path() == "time" && n.Obj().Name() == "Time"
+	if ok && n.Obj().Pkg() != nil && n.Obj().Pkg().Path() == "time" && n.Obj().Name() == "Time" {
+		return true
+	}
+	// named types defined as time.Time (e.g. PolicyTypeAfter)
+	if st, ok := t.Underlying().(*types.Struct); ok && st.NumFields() == 3 && st.Field(0).Name() == "wall" && st.Field(1).Name() == "ext" && st.Field(2).Name() == "loc" {
+		return true
+	}
+	return false
 }
 
 func (x *Exec) fillAt(name string, p Ptr, t types.Type) {
@@ -934,7 +941,7 @@ func (x *Exec) fillAt(name string, p Ptr, t types.Type) {
 		}
 		return
 	case *types.Slice:
-		s := p.Obj.Cells[p.Off].(SliceV)
+		s := x.sl(p.Obj.Cells[p.Off])
 		if s.Len == 0 {
 			return
 		}
@@ -1029,7 +1036,7 @@ func (x *Exec) deepEq(a, b []Value, t types.Type) *Term {
 		}
 		return ts.And(conj...)
 	case *types.Slice:
-		sa, sb := a[0].(SliceV), b[0].(SliceV)
+		sa, sb := x.sl(a[0]), x.sl(b[0])
 		if sa.Len != sb.Len {
 			return ts.False
 		}
